@@ -277,7 +277,7 @@ func (root *Root) addExtends(extends ...*Extend) (undo []func(), err error) {
 			if cur == nil {
 				cur = root.dirs.get(x.Adds.Name())
 			}
-		} else if schema, _ := x.Adds.(*Schema); schema != nil {
+		} else if schema, _ := x.Adds.(*Schema); schema != nil && root.schema != nil {
 			cur = root.schema
 		}
 		if cur == nil {
